@@ -168,7 +168,7 @@ func runC09(c *Ctx) Result {
 		zooUniq = c.RefBase // generated field names continue where the parent's stood
 	}
 	zooBase := zooUniq
-	z := &zoo{g: g, cb: t.Draw(simrt.Knobs, 3) == 0, maxDep: 2 + g.d(2)}
+	z := &zoo{g: g, cb: t.Draw(simrt.Knobs, 3) == 0, maxDep: 2 + g.d(2), wide: t.Draw(simrt.Knobs, 2) == 0}
 	capD, capE := c08Caps[t.Draw(simrt.Knobs, len(c08Caps))], c08Caps[t.Draw(simrt.Knobs, len(c08Caps))]
 	jitdec.SimResetCache(capD)
 	optdec.SimResetCache(capD)
